@@ -183,6 +183,7 @@ func fmtStep(s *opSpec) string {
 	add("acc", s.Access, s.Kind == kOpen || s.Kind == kOpenDowngrade)
 	add("deny", s.Deny, s.Deny != 0)
 	add("how", s.How, s.How != "")
+	add("claim", s.Claim, s.Claim != "")
 	add("sid", s.Stateid.String(), s.Stateid.Other != "")
 	add("newlo", s.NewLO, s.Kind == kLock)
 	add("lo", s.LockOwner, s.LockOwner != "")
